@@ -98,8 +98,16 @@ impl Client {
         {
             Ok(record) => {
                 debug!("Got scratchpad for {scratch_key:?}");
-                try_deserialize_record::<Scratchpad>(&record)
-                    .map_err(|_| VaultError::CouldNotDeserializeVaultScratchPad(scratch_address))?
+                let pad = try_deserialize_record::<Scratchpad>(&record)
+                    .map_err(|_| VaultError::CouldNotDeserializeVaultScratchPad(scratch_address))?;
+                // only a scratchpad owned by the requested key and validly signed by it is a vault
+                if pad.address() != &scratch_address || !pad.is_valid() {
+                    warn!("Scratchpad returned for {scratch_key:?} is not owned or not validly signed by the vault key");
+                    return Err(VaultError::CouldNotDeserializeVaultScratchPad(
+                        scratch_address,
+                    ));
+                }
+                pad
             }
             Err(NetworkError::GetRecordError(GetRecordError::SplitRecord { result_map })) => {
                 debug!("Got multiple scratchpads for {scratch_key:?}");
@@ -108,6 +116,8 @@ impl Client {
                     .map(|(record, _)| try_deserialize_record::<Scratchpad>(record))
                     .collect::<Result<Vec<_>, _>>()
                     .map_err(|_| VaultError::CouldNotDeserializeVaultScratchPad(scratch_address))?;
+                // unsigned, forged or foreign versions are discarded before picking the latest
+                pads.retain(|pad| pad.address() == &scratch_address && pad.is_valid());
 
                 // take the latest versions
                 pads.sort_by_key(|s| s.count());
